@@ -28,6 +28,26 @@ def run(tier):
                              expect={"any": ["VERIF-HANG", "stack overflow", "goroutine stack exceeds"]})
                     continue
                 c.handle("ship", entry, v, make_tape=ship_tape, hang_s=6)
+    # composition: real websocket layer + real SHIP connection (obligations between the layers, e.g. no synchronous
+    # call back into the SHIP connection from CloseDataConnection, which runs inside CloseConnection's sync.Once)
+    import wsutil
+    cuts = dict(lib.SHIP_CUTS)
+    cuts.update(wsutil.WS_CUTS)
+    runs = [("ws+ship", 0, 2)] + ([("ws+ship-d2-1frame", 2, 1)] if tier == "thorough" else [])
+    for name, d, frames in runs:
+        res3, meta3 = lib.run_engine("ws", ["H_C08_WsShip"], sched="explore", preempt=d, cuts=cuts, loop=40, paths=400000,
+                                     extra=["-param", "frames=%d" % frames])
+        c.add_run(name, res3, meta3)
+        c.bounds["wsship_" + name] = {"peer_frames": frames, "delay_bound": d, "failing_write": "symbolic k-th (0..4)"}
+        if res3:
+            r = res3["H_C08_WsShip"]
+            if not r["covers"].get("c08.wsship.end"):
+                c.covers_missing.append("H_C08_WsShip:c08.wsship.end")
+            for v in r["violations"] or []:
+                if v["kind"] in ("panic", "deadlock") or (v["kind"] == "assert" and v["id"].startswith("C08.")):
+                    c.handle("ws", "H_C08_WsShip_Native", dict(v, draws=[]), hang_s=150,
+                             expect={"any": ["VERIF-ASSERT-FAILED", "VERIF-PANIC", "VERIF-HANG"]})
+    c.assumptions.append("COMPOSED: H_C08_WsShip runs the real ws.WebsocketConnection (gorilla conn cut to harness functions, WS ENV as in C12/C13) under the real ship.ShipConnection; handshake timers do not elapse on their own, delayed closes (<= 2 s) are fired; findings are replayed on a real loopback websocket (H_C08_WsShip_Native)")
     # mDNS resolver input (TXT items, element maps, address lists, ports)
     from c17 import MDNS_CUTS
     res2, meta2 = lib.run_engine("mdns", ["H_C08_Mdns"], sched="manual", cuts=MDNS_CUTS, loop=80, solver="z3-new", maxstr=6, extra=["-bvstr"])
